@@ -23,7 +23,8 @@ CONSTANTS
   Sizes,     \* size bounds offered to bounded Join ({} = no bounded joins)
   Writers,   \* writers offered to SetIdentity ({} = disabled)
   Denied,    \* <<D_1..D_NR>> set of writers each replica's access controller denies
-  HashPerm   \* "id" | "rev": hash rank of the i-th created entry (i or -i)
+  HashPerm,  \* "id" | "rev": hash rank of the i-th created entry (i or -i)
+  IterOn     \* set of replicas on which Iterator is exercised ({} = never)
 
 VARIABLES
   U,      \* sequence of entry records (index = creation order = model CID)
@@ -55,7 +56,8 @@ Init ==
   /\ pure  = [r \in R |-> TRUE]
   /\ hist  = <<>>
 
-CanOp == Len(hist) < MaxOps
+\* an Iterator call ends the history (it does not change any state)
+CanOp == Len(hist) < MaxOps /\ (IF hist = <<>> THEN TRUE ELSE hist[Len(hist)][1] # "I")
 
 (***************************************************************************)
 (* Append (log.go l.303-398).  The block is written and the clock advanced *)
@@ -135,7 +137,33 @@ SetIdentity(r, w) ==
   /\ hist'  = Append(hist, <<"SI", r, w>>)
   /\ UNCHANGED <<U, ents, heads, nidx, pure>>
 
+(***************************************************************************)
+(* Iterator (log.go l.416-503): a pure function of the log and the options *)
+(* - the model only records the call.  The option space is the quantifier  *)
+(* of C15 (plus unknown upper bounds).                                     *)
+(***************************************************************************)
+IterOptions(r) ==
+  LET L == ents[r]
+      uppers == {[lte |-> <<>>, lt |-> <<>>]}
+                \cup {[lte |-> <<a>>, lt |-> <<>>] : a \in DOMAIN U}
+                \cup {[lte |-> <<q[1], q[2]>>, lt |-> <<>>] : q \in {p \in L \X L : p[1] # p[2]}}
+                \cup {[lte |-> <<>>, lt |-> <<a>>] : a \in DOMAIN U}
+      lowersOf(u) ==
+        IF IterUnknown(U, L, [lte |-> u.lte, lt |-> u.lt]) THEN {<<0, 0>>}
+        ELSE LET Rng == IterRange(U, L, IterUpper(U, SeqRange(heads[r]), [lte |-> u.lte, lt |-> u.lt]))
+             IN {<<0, 0>>} \cup {<<x, 0>> : x \in Rng} \cup {<<0, x>> : x \in Rng}
+      amounts == (0 - 1)..(Cardinality(L) + 1)
+  IN UNION {{[lte |-> u.lte, lt |-> u.lt, gte |-> lo[1], gt |-> lo[2], amount |-> a] :
+               lo \in lowersOf(u), a \in amounts} : u \in uppers}
+
+Iterate(r, o) ==
+  /\ CanOp
+  /\ IterInScope(U, ents[r], SeqRange(heads[r]), o)
+  /\ hist' = Append(hist, <<"I", r, o>>)
+  /\ UNCHANGED core
+
 Next ==
+  \/ \E r \in IterOn : \E o \in IterOptions(r) : Iterate(r, o)
   \/ \E r \in R, pc \in PCs : AppendOk(r, pc) \/ AppendDenied(r, pc)
   \/ \E r, s \in R : JoinNoop(r, s) \/ JoinOk(r, s, -1) \/ JoinFail(r, s, -1)
   \/ \E r, s \in R, n \in Sizes : JoinOk(r, s, n) \/ JoinFail(r, s, n)
@@ -149,7 +177,10 @@ Spec == Init /\ [][Next]_vars
 LastOp == IF hist = <<>> THEN <<>> ELSE hist[Len(hist)]
 \* Len(hist) is part of the view: the MaxOps bound depends on it, so two histories of
 \* different length must not be identified (otherwise the explored set depends on worker timing)
-View == <<core, LastOp, Len(hist)>>
+View ==
+  IF hist # <<>> /\ LastOp[1] = "I"
+  THEN LET r == LastOp[2] IN <<"I", [x \in ents[r] |-> U[x]], heads[r], LastOp[3]>>   \* only the iterated log matters
+  ELSE <<core, LastOp, Len(hist)>>
 Export == IF hist = <<>> THEN TRUE ELSE PrintT("HIST " \o ToJson(hist))
 
 -----------------------------------------------------------------------------
@@ -229,6 +260,12 @@ C04_Append ==
        /\ SeqRange(e.refs) \cap SeqRange(e.next) = {}
        /\ Len(e.refs) = Cardinality(SeqRange(e.refs))
        /\ \A k \in 0..8 : (pc < 2^(k+1)) => Len(e.refs) <= k + 2]_vars
+
+\* C15: the transcription of Iterator meets its declarative specification
+C15_AlgoMeetsSpec ==
+  hist # <<>> /\ LastOp[1] = "I" =>
+     LET r == LastOp[2]  o == LastOp[3] IN
+     pure[r] => IterMeetsSpec(U, Fn, ents[r], HeadSet(r), o, IterAlgo(U, Fn, ents[r], heads[r], o))
 
 \* C16: a bounded join keeps the last n of what the unbounded join gives
 IsBJoin == hist' # hist /\ hist'[Len(hist')][1] = "JB"
